@@ -42,16 +42,35 @@ def run(ctx):
     lines = []
     expect = []
 
-    def add(rpus, c, corrupt=None, note=""):
+    def add(rpus, c, corrupt=None, note="", kind="crc"):
         rp = list(rpus)
         exp_ok = len(rp) > 0
+        post = None
         if corrupt is not None and rp:
             i = corrupt
             d = bytearray(rp[i])
-            d[len(d) // 2] ^= 0x55      # CRC no longer matches
+            if kind == "crc":
+                d[len(d) // 2] ^= 0x55      # CRC no longer matches
+            elif kind == "prefix":
+                d[0] = rng.choice([0x18, 0x1A, 0x7C, 0x99])   # the 0x19 RPU prefix byte
+            elif kind == "header":
+                d[1] ^= 0x40                 # rpu_type / format bits
+            elif kind == "terminator":
+                t = len(bytes(d).rstrip(b"\x00")) - 1
+                d[t] = 0x81
+            elif kind == "truncate":
+                d = d[: max(6, len(d) - 9)]
+            elif kind == "startcode":
+                post = i                     # break the start code of entry i (it merges with its predecessor)
             rp[i] = bytes(d)
             exp_ok = False
-        data, _ = build(rp)
+        data, starts = build(rp)
+        if post is not None:
+            dd = bytearray(data)
+            dd[starts[post] + 3] = 2
+            data = bytes(dd)
+            if post == 0 and len(rp) > 1:
+                pass
         lines.append("file.parse %d %s" % (c, hx(data)))
         expect.append(("ok %d %s" % (len(rp), ",".join(str(crc_of(b)) for b in rp))) if exp_ok else "err")
         ctx.count("case=" + note)
@@ -81,7 +100,10 @@ def run(ctx):
             add(rpus, c, None, "valid")
         if k >= 2:
             for pos, note in ((0, "corrupt-first"), (k // 2, "corrupt-middle"), (k - 1, "corrupt-last")):
-                add(rpus, rng.choice(cs), pos, note)
+                for kind in ("crc", "prefix", "header", "terminator", "truncate", "startcode"):
+                    if kind == "startcode" and pos == 0:
+                        continue    # bytes before the first start code belong to no entry
+                    add(rpus, rng.choice(cs), pos, note + "/" + kind, kind)
     # exact multiple of the chunk size by trailing padding
     for _ in range(4):
         rpus = [rng.choice(pool) for _ in range(40)]
